@@ -15,7 +15,8 @@ def build(ctx, v=None):
 
 def shape_name(c):
     caps = "".join("r" if x == "ref" else "m" for x in c["caps"]) or "none"
-    return "shape_%s_a%d_%s_%s" % (caps, c["nargs"], "ret" if c["ret"] else "unit", "comma" if c["comma"] else "plain")
+    return "shape_%s_a%d_%s_%s%s" % (caps, c["nargs"], "ret" if c["ret"] else "unit", "comma" if c["comma"] else "plain",
+                                     "_reftag" if c.get("reftag") else "")
 
 
 def rust_for(c):
@@ -27,12 +28,14 @@ def rust_for(c):
     shared = [i for i in range(k) if caps[i] == "ref"]
     muts = [i for i in range(k) if caps[i] == "mut"]
     args = ["a%d" % (j + 1) for j in range(n)]
+    reftag = bool(c.get("reftag"))
+    tgx = ["tg"] if reftag else []      # passed through unchanged by every recursive call
     ssum = " + ".join("*c%d" % i for i in shared) or "0"
     first = ("*c%d" % shared[0]) if shared else "1"
     sep = "," if c["comma"] else ""
 
     def call(name, a, macro):
-        inner = ", ".join(a)
+        inner = ", ".join(list(a) + tgx)
         if macro:
             return "%s!(%s%s)" % (name, inner, sep)
         extra = "".join(", c%d" % i for i in range(k))
@@ -48,7 +51,7 @@ def rust_for(c):
         b.append("let hv: i64 = rec(a1);")
         base_mut = " ".join("*c%d += 1;" % i for i in muts)
         if ret:
-            b.append("if a1 <= 0 { %s return s + %s; }" % (base_mut, args[-1]))
+            b.append("if a1 <= 0 { %s return s + %s%s; }" % (base_mut, args[-1], " + *tg" if reftag else ""))
         else:
             b.append("if a1 <= 0 { %s return; }" % base_mut)
         for i in muts:
@@ -72,7 +75,7 @@ def rust_for(c):
         return "\n                ".join(b)
 
     capdecl = ", ".join("c%d: %s" % (i, "&i64" if caps[i] == "ref" else "&mut i64") for i in range(k))
-    argdecl = ", ".join("%s: i64" % a for a in args)
+    argdecl = ", ".join(["%s: i64" % a for a in args] + (["tg: &i64"] if reftag else []))
     rty = " -> i64" if ret else ""
     lines = []
     lines.append("#[test]")
@@ -96,21 +99,42 @@ def rust_for(c):
         lines.append("                " + body("rec", True))
         lines.append("                }")
         lines.append("            });")
-        if ret:
+        if reftag:
+            for (nm, rv) in (("t1", run["ret"]), ("t2", run["ret2"])):
+                lines.append("            {")
+                lines.append("                let %s: i64 = 7;" % nm)
+                if ret:
+                    lines.append("                let got = f(%s, &%s);" % (vals, nm))
+                    lines.append("                assert_eq!(got, %d, \"return value, args (%s)\");" % (rv, vals))
+                else:
+                    lines.append("                f(%s, &%s);" % (vals, nm))
+                lines.append("            }")
+        elif ret:
             lines.append("            let got = f(%s);" % vals)
             lines.append("            assert_eq!(got, %d, \"return value, args (%s)\");" % (run["ret"], vals))
         else:
             lines.append("            f(%s);" % vals)
         lines.append("        }")
-        ex_args = vals + "".join(", %se%d" % ("&" if caps[i] == "ref" else "&mut ", i) for i in range(k))
-        if ret:
-            lines.append("        let want = explicit(%s);" % ex_args)
+        ex_caps = "".join(", %se%d" % ("&" if caps[i] == "ref" else "&mut ", i) for i in range(k))
+        if reftag:
+            for (nm, rv) in (("u1", run["ret"]), ("u2", run["ret2"])):
+                lines.append("        {")
+                lines.append("            let %s: i64 = 7;" % nm)
+                if ret:
+                    lines.append("            let want = explicit(%s, &%s%s);" % (vals, nm, ex_caps))
+                    lines.append("            assert_eq!(want, %d, \"specification vs hand-written fn\");" % rv)
+                else:
+                    lines.append("            explicit(%s, &%s%s);" % (vals, nm, ex_caps))
+                lines.append("        }")
+        elif ret:
+            lines.append("        let want = explicit(%s);" % (vals + ex_caps))
             lines.append("        assert_eq!(want, %d, \"specification vs hand-written fn\");" % run["ret"])
         else:
-            lines.append("        explicit(%s);" % ex_args)
+            lines.append("        explicit(%s);" % (vals + ex_caps))
+        final_caps = run["caps2"] if reftag else run["caps"]
         for i in range(k):
-            lines.append("        assert_eq!(c%d, %d, \"captured variable %d after the call, args (%s)\");" % (i, run["caps"][i], i, vals))
-            lines.append("        assert_eq!(e%d, %d, \"hand-written fn: captured variable %d\");" % (i, run["caps"][i], i))
+            lines.append("        assert_eq!(c%d, %d, \"captured variable %d after the call(s), args (%s)\");" % (i, final_caps[i], i, vals))
+            lines.append("        assert_eq!(e%d, %d, \"hand-written fn: captured variable %d\");" % (i, final_caps[i], i))
         lines.append("    }")
     lines.append("}")
     return "\n".join(lines)
@@ -118,11 +142,12 @@ def rust_for(c):
 
 def run(ctx):
     ctx.level = "translation_validation"
-    ctx.rule = ("programs = macro invocations: TLC enumerates all 496 shapes (0..4 captures in every &/&mut pattern and order, 1..4 "
-                "arguments; thorough: 0..6 captures and 1..6 arguments, 3048 shapes, with/without return type, recursive calls with/without trailing comma) and computes, by the explicit recursion "
+    ctx.rule = ("programs = macro invocations: TLC enumerates all 992 shapes (0..4 captures in every &/&mut pattern and order, 1..4 "
+                "arguments, each also with one more reference-typed argument and two calls of the same closure; thorough: 0..6 captures and 1..6 arguments, 6096 shapes, with/without return type, recursive calls with/without trailing comma) and computes, by the explicit recursion "
                 "that DEFINES the canonical body's meaning, the return value and the final captured variables for three argument vectors; "
                 "one generated #[test] per shape invokes rec_lambda! with exactly that shape (body reads every shared capture, mutates "
-                "every mutable capture, branches on the arguments, recurses twice with rotated / decremented arguments) and asserts the "
+                "every mutable capture, calls a free helper that has the recursion macro's own name, branches on the arguments, recurses twice with "
+                "rotated / decremented arguments and once with a recursive call nested in an argument) and asserts the "
                 "specification's values, next to a hand-written recursive fn; compiled and run against /repo. Non-trivial = shape with at "
                 "least one capture.")
     cfg = ctx.cfg("lambda", "RecLambda.cfg", {"MaxCaps": ctx.q("4", "6"), "MaxArgs": ctx.q("4", "6")})
@@ -214,7 +239,8 @@ def run(ctx):
 
 
 def shape_key(c):
-    return "captures=%s args=%d ret=%s trailing_comma=%s" % ("".join("&" if x == "ref" else "M" for x in c["caps"]) or "-", c["nargs"], c["ret"], c["comma"])
+    return "captures=%s args=%d ret=%s trailing_comma=%s%s" % ("".join("&" if x == "ref" else "M" for x in c["caps"]) or "-", c["nargs"], c["ret"], c["comma"],
+                                                               " ref_arg=True" if c.get("reftag") else "")
 
 
 def validate_segment(ctx, v, trace):
